@@ -35,7 +35,9 @@ KeptLists == {<<>>} \cup {s \in UNION {[1..n -> Cand] : n \in 1..2} : \A i, j \i
 -----------------------------------------------------------------------------
 (* Requirement *)
 KeptKnown(fields, ks) == SelectSeq(ks, LAMBDA v : v \in Rng(fields))
-CookSpec(C, n, ks) ==
+\* CookSpecG: the requirement with the uninterpreted recipe value NewTok(j, level, box) left as a parameter, so that
+\* trace validation (OpTrace.tla) can bind it to the digest of the independently evaluated recipe
+CookSpecG(C, n, ks, NewTok(_, _, _)) ==
   LET kn == KeptKnown(C.fields, ks)
       cols == [i \in DOMAIN kn |-> PosIn(C.fields, kn[i])]
   IN [names |-> Rng(kn) \cup Rng(NewNames(n)),
@@ -43,7 +45,8 @@ CookSpec(C, n, ks) ==
                  [b \in DOMAIN C.lev[l] |->
                     [idx |-> C.lev[l][b].idx,
                      pairs |-> {<<kn[i], C.lev[l][b].comps[cols[i]]>> : i \in DOMAIN kn}
-                               \cup {<<NewNames(n)[j], <<"new", j, l - 1, C.lev[l][b].idx>>>> : j \in 1..n}]]]]
+                               \cup {<<NewNames(n)[j], NewTok(j, l - 1, C.lev[l][b].idx)>> : j \in 1..n}]]]]
+CookSpec(C, n, ks) == CookSpecG(C, n, ks, LAMBDA j, l, i : <<"new", j, l, i>>)
 
 -----------------------------------------------------------------------------
 (* Implementation *)
